@@ -295,8 +295,44 @@ impl Node {
     /// Hard deletions are not synchronized
     ///
     pub fn delete(id: &Uid, conn: &Connection) -> std::result::Result<(), rusqlite::Error> {
+        let mut indexed_stmt = conn.prepare_cached("SELECT rowid, _json FROM _node WHERE id=? ")?;
+        let mut rows = indexed_stmt.query([id])?;
+        while let Some(row) = rows.next()? {
+            Self::remove_from_index(row.get(0)?, row.get(1)?, conn)?;
+        }
         let mut delete_stmt = conn.prepare_cached("DELETE FROM _node WHERE id=? ")?;
         delete_stmt.execute([id])?;
+        Ok(())
+    }
+
+    ///
+    /// Removes the full text index entry of a row that is about to be deleted.
+    /// The index is contentless: an entry is removed by providing the text that was indexed.
+    /// Without this, the entry would be attributed to the next row that receives the freed rowid.
+    ///
+    pub fn remove_from_index(
+        rowid: i64,
+        json: Option<String>,
+        conn: &Connection,
+    ) -> std::result::Result<(), rusqlite::Error> {
+        let mut exists_stmt = conn.prepare_cached("SELECT rowid FROM _node_fts WHERE rowid = ?")?;
+        let indexed: Option<i64> = exists_stmt
+            .query_row([rowid], |row| row.get(0))
+            .optional()?;
+        if indexed.is_none() {
+            return Ok(());
+        }
+        if let Some(json) = json {
+            if let Ok(value) = serde_json::from_str::<serde_json::Value>(&json) {
+                let mut text = String::new();
+                if extract_json(&value, &mut text).is_ok() {
+                    let mut delete_fts_stmt = conn.prepare_cached(
+                        "INSERT INTO _node_fts (_node_fts, rowid, text) VALUES('delete', ?, ?)",
+                    )?;
+                    delete_fts_stmt.execute((rowid, text))?;
+                }
+            }
+        }
         Ok(())
     }
 
@@ -1004,14 +1040,18 @@ impl NodeDeletionEntry {
         let query = "DELETE FROM _node WHERE room_id=? AND id=? AND mdate <= ?";
         let mut stmt = conn.prepare_cached(query)?;
         //the version stored locally can be older than the deleted one: its day must be recomputed too
-        let mut stored_stmt = conn
-            .prepare_cached("SELECT mdate FROM _node WHERE room_id=? AND id=? AND mdate <= ?")?;
+        let mut stored_stmt = conn.prepare_cached(
+            "SELECT mdate, rowid, _json FROM _node WHERE room_id=? AND id=? AND mdate <= ?",
+        )?;
         for node in nodes {
-            let stored_date: Option<i64> = stored_stmt
-                .query_row((node.room_id, node.id, node.mdate), |row| row.get(0))
+            let stored: Option<(i64, i64, Option<String>)> = stored_stmt
+                .query_row((node.room_id, node.id, node.mdate), |row| {
+                    Ok((row.get(0)?, row.get(1)?, row.get(2)?))
+                })
                 .optional()?;
-            if let Some(stored_date) = stored_date {
+            if let Some((stored_date, rowid, json)) = stored {
                 daily_log.set_need_update(node.room_id, &node.entity, stored_date);
+                Node::remove_from_index(rowid, json, conn)?;
             }
             stmt.execute((node.room_id, node.id, node.mdate))?;
             node.write(conn)?;
